@@ -51,6 +51,7 @@ func (f *PathnameType) Call(s *slip.Scope, args slip.List, depth int) (result sl
 	if !ok {
 		slip.TypePanic(s, depth, "string", args[0], "string")
 	}
+	_, _ = slip.GetArgsKeyValue(args[1:], slip.Symbol(":case")) // ignored but must be well formed
 	ext := strings.TrimLeft(filepath.Ext(string(path)), ".")
 	if 0 < len(ext) {
 		result = slip.String(ext)
